@@ -1,7 +1,7 @@
 # type: ignore
 """miniB path configuration 'archive' (root /o): same structure, a path vocabulary of its own."""
 from spil_sid_conf import key_patterns as _kp
-from spil_fs_conf import make_templates
+from spil_fs_main_conf import make_templates
 
 path_templates = make_templates('/o', 'props', 'cuts', 'lib')
 
